@@ -20,6 +20,13 @@ def gen_action(rng):
                 defs = d.setdefault("$defs", {})
                 defs.setdefault("R0", {"type": "string"})
                 d[rng.choice(["allOf", "anyOf"])] = [rng.choice([{"$ref": "#/$defs/R0"}, True, {"type": "number"}]) for _ in range(rng.choice([1, 2]))]
+            if isinstance(d, dict) and rng.random() < 0.3:
+                # a referenced definition whose own combinator list has a reference / boolean member
+                defs = d.setdefault("$defs", {})
+                defs.setdefault("R0", {"type": "string"})
+                defs["R1"] = {rng.choice(["anyOf", "anyOf", "allOf"]): [{"$ref": "#/$defs/R0"}, rng.choice([True, {"type": "null"}]), {"type": "null"}]}
+                if isinstance(d.get("properties", {}), dict):
+                    d.setdefault("properties", {})["rv"] = {"$ref": "#/$defs/R1"}
             if isinstance(d, dict) and J.metaschema_ok(d):
                 return [k, d]
     if k == "regex":
@@ -137,6 +144,22 @@ def run(pid, tier):
             hist["history_calls"] += len(h)
             hist["twins"] = hist.get("twins", 0) + 1
             made += 1
+    # the same regular expression with other length facets (what is computed per pattern must not be served across them)
+    def pattern_xsd(pat, mn, mx):
+        return ('<xs:schema xmlns:xs="http://www.w3.org/2001/XMLSchema"><xs:element name="root"><xs:simpleType><xs:restriction base="xs:string">'
+                '<xs:pattern value="%s" /><xs:minLength value="%d" />%s</xs:restriction></xs:simpleType></xs:element></xs:schema>' % (
+                    pat, mn, '<xs:maxLength value="%d" />' % mx if mx is not None else ""))
+    for _ in range(3 if tier == "quick" else 24):
+        pat = rng.choice(["ab+", "x[0-9]{2}", "(ab|c)+d", "a{2,3}b"])
+        lo = rng.choice([1, 2])
+        probe = ["xml", pattern_xsd(pat, lo, lo + rng.choice([3, 4, 6]))]
+        tw = ["xml", pattern_xsd(pat, rng.choice([6, 9, 12]), None)]
+        h = [tw] + [gen_action(rng) for _ in range(rng.choice([0, 1]))]
+        rng.shuffle(h)
+        jobs.append({"history": h, "probe": probe, "seed": rng.randrange(1000)})
+        hist["xml"] += 1
+        hist["history_calls"] += len(h)
+        hist["pattern_twins"] = hist.get("pattern_twins", 0) + 1
     # same process: history then probe, all in this interpreter... but one interpreter per job keeps jobs independent
     def both(job):
         with_history = fresh(job, hashseed)
